@@ -42,7 +42,7 @@ from ..feature_requirement import (
     HAS_TYPED_DICT_REQUIRED,
     HAS_UNPACK,
 )
-from .basic_utils import create_union, eval_forward_ref, is_new_type, is_subclass_soft, strip_alias
+from .basic_utils import create_union, eval_forward_ref, get_forward_ref_namespace, is_new_type, is_subclass_soft, strip_alias
 from .fundamentals import get_generic_args
 from .implicit_params import ImplicitParamsGetter
 
@@ -561,11 +561,10 @@ class TypeNormalizer:
         else:
             return None
 
-        if fwd_ref.__forward_module__ is not None:
-            ns = fwd_ref.__forward_module__.__dict__
-        elif self._namespace is not None:
+        ns = get_forward_ref_namespace(fwd_ref)
+        if ns is None:
             ns = self._namespace
-        else:
+        if ns is None:
             raise ValueError(f"Can not normalize value {tp!r}, there are no namespace to evaluate types")
 
         return _replace_source(
